@@ -101,6 +101,8 @@ pub struct TextSpec {
     pub trail: bool,
     /// the text does not end with a line break
     pub no_final_eol: bool,
+    /// the text starts with a UTF-8 byte order mark (U+FEFF), as some editors write it
+    pub bom: bool,
     /// add multi-line constructs: a defset with an anonymous def, a class whose template
     /// arguments continue on the next line, let / foreach blocks, a def spanning two lines
     pub rich: bool,
@@ -123,6 +125,9 @@ impl TextSpec {
         let k = &self.key;
         let n = self.version;
         let mut s = String::new();
+        if self.bom {
+            s.push('\u{FEFF}');
+        }
         for i in 0..self.lead {
             if i % 2 == 0 {
                 s.push_str(&format!("// {} lead {}{}", wide(self.alphabet, n + i as u32), i, e));
@@ -303,6 +308,9 @@ pub struct GenCfg {
     pub allow_faults: bool,
     pub allow_syntax_fault: bool,
     pub max_lead: usize,
+    /// keys a file may ALSO include regardless of order (itself, an includer): include cycles.
+    /// Empty: acyclic workspaces only.
+    pub cycle_keys: Vec<String>,
 }
 
 /// A fresh version of file `key`. `others`: keys it may include (acyclicity is the caller's
@@ -320,6 +328,14 @@ pub fn gen_text(rng: &mut Rng, vs: &mut Versions, key: &str, includable: &[&str]
             if template_use.is_none() && rng.chance(1, 2) {
                 template_use = Some(o.to_string());
             }
+        }
+    }
+    if !cfg.cycle_keys.is_empty() && rng.chance(1, 5) {
+        // a back edge (or a self-include): an include cycle
+        let o = rng.pick(&cfg.cycle_keys).clone();
+        let name = include_name(&o);
+        if !includes.contains(&name) {
+            includes.push(name);
         }
     }
     let fault = if cfg.allow_faults && rng.chance(1, 3) {
@@ -351,6 +367,7 @@ pub fn gen_text(rng: &mut Rng, vs: &mut Versions, key: &str, includable: &[&str]
         dotted: rng.chance(1, 6),
         trail: rng.chance(1, 5),
         no_final_eol: rng.chance(1, 5),
+        bom: rng.chance(1, 20),
         pp: cfg.eol == Eol::Lf && rng.chance(1, 3),
         bulk: if rng.chance(1, 40) { if rng.chance(1, 2) { rng.range(100, 300) } else { rng.range(480, 800) } } else { 0 },
         bulk_variant: false,
@@ -387,9 +404,14 @@ pub fn edit_text(rng: &mut Rng, vs: &mut Versions, prev: &TextSpec, includable: 
         9 => t.dotted = !t.dotted,
         7 => t.joined = !t.joined,
         8 => t.rich = !t.rich,
-        0 if !includable.is_empty() => {
-            // toggle an include
-            let o = *rng.pick(includable);
+        0 if !includable.is_empty() || !cfg.cycle_keys.is_empty() => {
+            // toggle an include (now and then one that closes a cycle)
+            let o: String = if includable.is_empty() || (!cfg.cycle_keys.is_empty() && rng.chance(1, 3)) {
+                rng.pick(&cfg.cycle_keys).clone()
+            } else {
+                rng.pick(includable).to_string()
+            };
+            let o = o.as_str();
             let name = include_name(o);
             if let Some(i) = t.includes.iter().position(|x| *x == name) {
                 t.includes.remove(i);
@@ -539,7 +561,7 @@ pub fn gen_live(rng: &mut Rng, small_k: bool) -> Scenario {
     if use_inc_dir {
         keys.push("d");
     }
-    let cfg = GenCfg { alphabet: Alphabet::Ascii, eol: Eol::Lf, allow_faults: true, allow_syntax_fault: true, max_lead: 2 };
+    let cfg = GenCfg { alphabet: Alphabet::Ascii, eol: Eol::Lf, allow_faults: true, allow_syntax_fault: true, max_lead: 2, cycle_keys: Vec::new() };
     let mut b = Build::new();
     // now and then a WIDE workspace: document `a` includes 70-130 small files (one
     // publication per file: batches far beyond any small queue bound)
@@ -726,7 +748,8 @@ pub fn gen_converge(rng: &mut Rng) -> Scenario {
         keys.push("d");
     }
     let docs: Vec<&str> = all[..n_docs].to_vec();
-    let cfg = GenCfg { alphabet: Alphabet::Ascii, eol: Eol::Lf, allow_faults: true, allow_syntax_fault: true, max_lead: 3 };
+    let cycle_keys: Vec<String> = if rng.chance(1, 3) { docs.iter().map(|k| k.to_string()).collect() } else { Vec::new() };
+    let cfg = GenCfg { alphabet: Alphabet::Ascii, eol: Eol::Lf, allow_faults: true, allow_syntax_fault: true, max_lead: 3, cycle_keys };
     let mut b = Build::new();
     for k in &keys {
         let spec = gen_text(rng, &mut b.vs, k, &includable(&keys, k), &cfg);
@@ -779,7 +802,8 @@ pub fn gen_overlay(rng: &mut Rng, removed_variant: bool) -> Scenario {
         vec!["a", "b"]
     };
     let many = keys.len() > 3;
-    let cfg = GenCfg { alphabet: Alphabet::Ascii, eol: Eol::Lf, allow_faults: true, allow_syntax_fault: false, max_lead: 2 };
+    let cycle_keys: Vec<String> = if rng.chance(1, 3) { keys.iter().map(|k| k.to_string()).collect() } else { Vec::new() };
+    let cfg = GenCfg { alphabet: Alphabet::Ascii, eol: Eol::Lf, allow_faults: true, allow_syntax_fault: false, max_lead: 2, cycle_keys };
     let mut b = Build::new();
     for k in &keys {
         let mut spec = gen_text(rng, &mut b.vs, k, &includable(&keys, k), &cfg);
@@ -879,6 +903,7 @@ pub fn gen_wire(rng: &mut Rng) -> Scenario {
         _ => Eol::Cr,
     };
     let keys: Vec<&str> = if rng.chance(1, 2) { vec!["a", "b", "c"] } else { vec!["a", "b"] };
+    let cyclic = rng.chance(1, 4);
     let cfg_of = |k: &str| GenCfg {
         // the document requests are positioned in stays ASCII
         alphabet: if k == "a" { Alphabet::Ascii } else { alphabet },
@@ -886,6 +911,7 @@ pub fn gen_wire(rng: &mut Rng) -> Scenario {
         allow_faults: true,
         allow_syntax_fault: false,
         max_lead: 5,
+        cycle_keys: if cyclic { keys.iter().map(|k| k.to_string()).collect() } else { Vec::new() },
     };
     let mut b = Build::new();
     for k in &keys {
@@ -972,7 +998,8 @@ pub fn gen_hist_live(rng: &mut Rng) -> Scenario {
         keys.push("d");
     }
     let docs: Vec<&str> = all[..n_docs].to_vec();
-    let cfg = GenCfg { alphabet: Alphabet::Ascii, eol: Eol::Lf, allow_faults: true, allow_syntax_fault: true, max_lead: 3 };
+    let cycle_keys: Vec<String> = if rng.chance(1, 3) { docs.iter().map(|k| k.to_string()).collect() } else { Vec::new() };
+    let cfg = GenCfg { alphabet: Alphabet::Ascii, eol: Eol::Lf, allow_faults: true, allow_syntax_fault: true, max_lead: 3, cycle_keys };
     let mut b = Build::new();
     for k in &keys {
         let spec = gen_text(rng, &mut b.vs, k, &includable(&keys, k), &cfg);
